@@ -70,6 +70,92 @@ Example C14_ex_nice :
   nice 1 (19#10, 41#10) = (0, 10).
 Proof. vm_compute. repeat split. Qed.
 
-(* ===================== time scale part: added by the time package ==========
-   (tnice_outward, tnice_orientation, tnice_aligned, tnice_skip_fuel,
-   tnice_lt_two_ticks of DESIGN.md section 5/C14 go below this line)        *)
+(* ===================== time scale part (built by the time package) ========= *)
+(* Property C14, TIME part (TimeScale.nice); the linear part belongs to the
+   scale package.  Statements only; meant to be merged into Props/C14.v.
+
+   `ts_nice d0 d1 m` is the model of TimeScale().domain([d0, d1]).nice(m).domain()
+   (m = 10 when omitted) in Time/TimeNice.v; `aligned meth x` (TimeNiceProofs.v)
+   says: for a calendar method (unit u, skip k) x is a boundary of u (independent
+   predicate of C17) whose unit number is divisible by k when k > 1; for the
+   millisecond method x is a whole millisecond divisible by the integer step.
+   Domains have millisecond resolution (the property's quantifier).
+
+   PROVED for all domains and counts: tnice_outward, tnice_orientation,
+   tnice_aligned, tnice_skip_fuel.
+   NOT PROVED (planned in DESIGN.md as tnice_lt_two_ticks, partial there too):
+     ts_nice d0 d1 m = Ok (n0, n1) -> each end moves by less than two tick steps
+     of the ORIGINAL domain's ticks:  lo - lo' < 2 * g  /\  hi' - hi < 2 * g
+     where g is the largest gap between consecutive elements of ts_ticks d0 d1 m.
+   What is missing: the relation between the skip and the tick gap per row of
+   the method table (for day/month/year rows with month/year lengths).  The
+   property oracle of harness/props/c14t.py checks it on every generated case.
+   Totality (no Raise in years 2..9997 minus the skip reach) is not stated here
+   either; Raise only arises when an end would leave years 1..9999. *)
+From Coq Require ZArith QArith List Bool.
+From Labella Require Time.Calendar Time.Interval Time.IntervalSpec Time.TimeScale Time.TimeTicks Time.TimeNice Time.TimeNiceProofs.
+Module TimePart.
+Import ZArith QArith List Bool.
+Import Time.Calendar Time.Interval Time.IntervalSpec Time.TimeScale Time.TimeTicks Time.TimeNice Time.TimeNiceProofs.
+Import ListNotations.
+Open Scope Z_scope.
+(* tnice_outward + tnice_aligned: the smaller end only moves down, the larger end
+   only moves up, each stays in its own position of the pair, both are aligned *)
+Theorem C14T_tnice_outward_aligned : forall d0 d1 m n0 n1,
+  valid d0 -> valid d1 -> ms_resolution d0 -> ms_resolution d1 ->
+  ts_nice d0 d1 m = Ok (n0, n1) ->
+  exists meth, tick_method_of (to_ms (dom_lo d0 d1)) (to_ms (dom_hi d0 d1)) m = Ok meth /\
+    valid n0 /\ valid n1 /\ aligned meth n0 /\ aligned meth n1 /\
+    (if to_us d1 <? to_us d0
+     then to_us n1 <= to_us d1 /\ to_us d0 <= to_us n0
+     else to_us n0 <= to_us d0 /\ to_us d1 <= to_us n1).
+Proof. exact ts_nice_spec. Qed.
+Print Assumptions C14T_tnice_outward_aligned.
+
+(* tnice_orientation *)
+Theorem C14T_tnice_orientation : forall d0 d1 m n0 n1,
+  valid d0 -> valid d1 -> ms_resolution d0 -> ms_resolution d1 ->
+  ts_nice d0 d1 m = Ok (n0, n1) ->
+  (to_us d0 < to_us d1 -> to_us n0 < to_us n1) /\
+  (to_us d1 < to_us d0 -> to_us n1 < to_us n0) /\
+  (to_us d0 = to_us d1 -> to_us n0 <= to_us n1).
+Proof. exact ts_nice_orientation. Qed.
+Print Assumptions C14T_tnice_orientation.
+
+(* tnice_skip_fuel: the step-back / step-forward loops of scale.py:173-186 end
+   within `skip` rounds for every method the table can produce (fuel = skip + 1
+   never runs out).  This is also a termination argument for the code's
+   `while skipped(...)` loops. *)
+Theorem C14T_tnice_skip_fuel : forall d0 d1 m,
+  valid d0 -> valid d1 -> ms_resolution d0 -> ms_resolution d1 ->
+  ts_nice d0 d1 m <> NoFuel.
+Proof. exact ts_nice_fuel_enough. Qed.
+Print Assumptions C14T_tnice_skip_fuel.
+
+(* the ingredient of the fuel bound: along consecutive boundaries the unit number
+   grows by one or wraps to 0 (all units but the week, which the table only uses
+   with skip 1) *)
+Theorem C14T_number_succ : forall u x x', u <> UWeek -> valid x -> valid x' ->
+  is_boundary u (to_us x) -> next_boundary (is_boundary u) (to_us x) (to_us x') ->
+  iv_number (interval_of u) x' = iv_number (interval_of u) x + 1 \/
+  iv_number (interval_of u) x' = 0.
+Proof. exact number_succ. Qed.
+Print Assumptions C14T_number_succ.
+
+(* ---------- non-vacuity ---------------------------------------------------------- *)
+(* A.7: nice(42) on [2068-03-15, 2068-05-30]: two-day ticks -> [2068-03-15, 2068-05-31];
+   a reversed 94-year domain with m = 3: 50-year skip -> [2100, 2000];
+   a 90 ms domain with m = 7: 20 ms steps *)
+Example C14T_ex :
+  ts_nice (mkdt 2068 3 15 0 0 0 0) (mkdt 2068 5 30 0 0 0 0) 42 =
+    Ok (mkdt 2068 3 15 0 0 0 0, mkdt 2068 5 31 0 0 0 0) /\
+  tick_method_of (to_ms (mkdt 2068 3 15 0 0 0 0)) (to_ms (mkdt 2068 5 30 0 0 0 0)) 42 = Ok (TUnit UDay 2) /\
+  ts_nice (mkdt 2095 5 30 0 0 0 0) (mkdt 2001 3 15 7 0 0 0) 3 =
+    Ok (mkdt 2100 1 1 0 0 0 0, mkdt 2000 1 1 0 0 0 0) /\
+  ts_nice (mkdt 2001 3 15 7 3 2 5000) (mkdt 2001 3 15 7 3 2 95000) 7 =
+    Ok (mkdt 2001 3 15 7 3 2 0, mkdt 2001 3 15 7 3 2 100000) /\
+  ts_nice (mkdt 2001 3 15 7 3 2 0) (mkdt 2001 3 17 9 0 0 0) 10 =
+    Ok (mkdt 2001 3 15 6 0 0 0, mkdt 2001 3 17 12 0 0 0).
+Proof. vm_compute. repeat split. Qed.
+
+End TimePart.
